@@ -12,4 +12,8 @@ MUTANTS = [
     M('C05', 'EQ bit.add clears the carry through the vector form', B + 'math.fj', "        .zero carry\n        rep(n, i) .add1 dst+i*dw, src+i*dw, carry\n", "        .zero 1, carry\n        rep(n, i) .add1 dst+i*dw, src+i*dw, carry\n", None),
     M('C05', 'bit.shl copies with the unguarded mov (seed C05_2)', B + 'shifts.fj', "        rep(n-times, i) .mov x+(n-1-i)*dw, x+(n-1-i-times)*dw", "        rep(n-times, i) .unsafe_mov x+(n-1-i)*dw, x+(n-1-i-times)*dw", 'C05.ALIAS'),
     M('C05', 'EQ swap stride spelled dw*i', B + 'memory.fj', "        rep(n, i) .swap a+i*dw, b+i*dw", "        rep(n, i) .swap a+dw*i, b+i*dw", None),
+    M('C05', 'bit.exact_xor no longer gives the jump word of src back', B + 'logics.fj', "      cleanup:\n        wflip src+w, base_jump_label\n    }", "      cleanup:\n    }", 'C05.JW-RESTORE', count=2),
+    M('C05', 'signed divisions sample the sign of b after a was negated in place (seed C05_3)', B + 'div.fj', "        .mov negative_b, b+dw*(n-1)\n        .zero one_negative\n\n        .if0 negative_a, neg_b_1\n        .not one_negative\n        .neg n, a\n      neg_b_1:\n", "        .zero one_negative\n\n        .if0 negative_a, neg_b_1\n        .not one_negative\n        .neg n, a\n      neg_b_1:\n        .mov negative_b, b+dw*(n-1)\n", 'C05.SNAPSHOT', count=2),
+    M('C05', 'EQ signed divisions sample the sign of b first', B + 'div.fj', "        .mov negative_a, a+dw*(n-1)\n        .mov negative_b, b+dw*(n-1)\n", "        .mov negative_b, b+dw*(n-1)\n        .mov negative_a, a+dw*(n-1)\n", None, count=2),
+    M('C05', 'EQ signed divisions clear the flag before sampling', B + 'div.fj', "        .mov negative_a, a+dw*(n-1)\n        .mov negative_b, b+dw*(n-1)\n        .zero one_negative\n", "        .zero one_negative\n        .mov negative_a, a+dw*(n-1)\n        .mov negative_b, b+dw*(n-1)\n", None, count=2),
 ]
